@@ -6,7 +6,8 @@
 (* line.  The laws of C13 are invariants evaluated on every reachable      *)
 (* prefix, i.e. on every small genotype matrix of the configuration.       *)
 (*                                                                         *)
-(* Mode "geno": every genotype matrix (each call in {00, 01, 11, missing}) *)
+(* Mode "geno": every genotype matrix (each call in {00, 01, 11, missing};  *)
+(*   Alphabet = 3 drops 00 to reach two lines with two populations)        *)
 (*   of 1-2 populations x 2 diploids, ancestral allele = REF / ALT /       *)
 (*   absent, distinct positions (lines are appended in non-decreasing code *)
 (*   order: the laws do not depend on the order of lines with distinct     *)
@@ -17,7 +18,7 @@
 (*   every order.                                                          *)
 (***************************************************************************)
 EXTENDS DataDict
-CONSTANTS MaxLines, Mode, SampleChoices, Reduce, ChunkSizes, BootMax, AllProjDepth, FlagSet
+CONSTANTS MaxLines, Mode, SampleChoices, Reduce, ChunkSizes, BootMax, AllProjDepth, FlagSet, Alphabet
 
 Samples1 == {<<"P1", "P1">>}
 Samples2 == {<<"P1", "P1", "P2", "P2">>}
@@ -28,7 +29,7 @@ SamplesFlags1 == {<<"P2", "", "P1">>}
 VARIABLES file, st, depth, pend
 vars == <<file, st, depth, pend>>
 
-G4 == {<<0, 0>>, <<0, 1>>, <<1, 1>>, <<2, 2>>}
+G4 == IF Alphabet = 4 THEN {<<0, 0>>, <<0, 1>>, <<1, 1>>, <<2, 2>>} ELSE {<<0, 1>>, <<1, 1>>, <<2, 2>>}
 GCode(g) == 3 * g[1] + g[2]
 DataLine(chrom, pos, filt, ref, alt, aa, gts) ==
     [kind |-> "data", chrom |-> chrom, pos |-> pos, filt |-> filt, ref |-> ref, alt |-> alt, aa |-> aa, gts |-> gts]
